@@ -122,11 +122,15 @@ func mutateSweep(id string, jobs int, only string) error {
 			case *ast.FuncLit:
 				return false // closures are separate functions in c.Funcs
 			case *ast.IfStmt:
-				// plain error propagation is the error-discipline rules' business
+				// plain error propagation is swept separately (MIXVET_MUT_ERR=1: only those)
+				isErr := false
 				if be, ok := s.Cond.(*ast.BinaryExpr); ok {
 					if id, ok := be.X.(*ast.Ident); ok && id.Name == "err" {
-						return true
+						isErr = true
 					}
+				}
+				if errOnly := os.Getenv("MIXVET_MUT_ERR") != ""; errOnly != isErr {
+					return true
 				}
 				add(x.name, s.Cond, "cond-false", "false")
 				if ops["neg"] {
@@ -141,6 +145,9 @@ func mutateSweep(id string, jobs int, only string) error {
 				}
 			case *ast.BinaryExpr:
 				if id, ok := s.X.(*ast.Ident); ok && id.Name == "err" {
+					return true
+				}
+				if os.Getenv("MIXVET_MUT_ERR") != "" {
 					return true
 				}
 				if r, ok := flip[s.Op]; ok && ops["op"] {
